@@ -116,7 +116,12 @@ def run_one(mod, cfgname, cfg, seed=None, tape=None):
     try:
         if _poisoned:
             raise RuntimeError("worker skipped: an earlier run left a spinning thread behind")
+        from . import simfs as _simfs
+        del _simfs.UNSUPPORTED[:]
         out = mod.scenario(ch, dict(cfg))
+        if _simfs.UNSUPPORTED:
+            out = {"harness_error": f"the simulated file system lacks: {sorted(set(_simfs.UNSUPPORTED))} (the code under test asked for it)",
+                   "violations": []}
     except ActorStuck as e:
         _poisoned = True            # the stuck thread keeps a core busy: this worker runs nothing more
         if e.where is not None:
